@@ -309,7 +309,7 @@ def fileListT (path : Option Bytes) (names : Bool) : MT (Replies × Bytes) :=
     let (ready, rs) ← createDataConnectionT c Replies.empty
     if ready then
       let w ← getT
-      lift (modifyW fun b => { b with sinkSilent := true, sink := [] })
+      lift (modifyW fun b => { b with sinkSilent := true, sink := [], sinkFailAt := none })
       lift (dataRecv false w.base.ttype)
       let w ← getT
       lift (do emit (.listing w.base.sink); forObservers (fun o => .obsFileList o w.base.sink))
